@@ -10,6 +10,12 @@
 //!    port of that host, another host, or another transport object (NAT rebinding, a client that sends from an
 //!    ephemeral port, a new connection). RFC 3261 17.2.3 matches by branch / sent-by / method only,
 //!  * a To-tag added by the application to the final response (echoed by the ACK),
+//!  * HOW the transaction is identified (RFC 3261 17.2.3): a branch with the magic cookie `z9hG4bK`, a branch
+//!    without it (RFC 2543 client, any token), or no branch parameter at all. Without the cookie the request copies
+//!    and the ACK are matched by Call-ID / CSeq number / From-tag / top Via (and the To-tag of the ACK against the one
+//!    of the RESPONSE, which the INVITE did not carry) instead of by the branch,
+//!  * an in-dialog request (re-INVITE / in-dialog OPTIONS): the request, its copies and the ACK already carry a
+//!    To-tag, which the response keeps,
 //!  * background load on the same endpoint: a burst of 1..~600 (thorough grid: 2048) OTHER requests (own branch and
 //!    Call-ID) arriving while the foreground transaction is alive. They are requests no layer takes (the endpoint
 //!    answers 481 itself, for an INVITE inside the receive path for up to 64*T1), INVITEs a layer rejects inline,
@@ -17,7 +23,10 @@
 //!
 //! Oracle: `ref_tsx` timer arithmetic; the expected transmissions / call results / layer sightings of the
 //! foreground transaction are a function of its own history only — neither the source address of a matching
-//! message nor other transactions of the endpoint change them. The wire log is split by Call-ID; only "every
+//! message, nor the way it is matched (cookie branch or RFC 2543 fields), nor other transactions of the endpoint
+//! change them. Every later message of the peer is built the way a peer builds it: request copies are byte-identical
+//! to the first request, the ACK has the Request-URI / Call-ID / From / CSeq number / top Via sent-by of the INVITE
+//! and the To header of the final response. The wire log is split by Call-ID; only "every
 //! background message on the wire is a response" is asserted about the load.
 //!
 //! Not asserted: where the response is sent (C09), only that every re-send goes to the same place as the first
@@ -75,6 +84,15 @@ pub struct Case {
     /// other requests arriving at the same endpoint while the foreground transaction is alive
     #[serde(default)]
     pub load: Option<Load>,
+    /// branch parameter of the top Via of the request, its copies and the ACK: 0 with the magic cookie (RFC 3261
+    /// matching by branch), 1 a token without the cookie, 2 no branch parameter (both: RFC 2543 matching by
+    /// Call-ID / CSeq number / From-tag / To-tag / top Via, RFC 3261 17.2.3 second half)
+    #[serde(default)]
+    pub branch: u8,
+    /// the request is an in-dialog one: it (and its copies and the ACK) carries a To-tag already, the response keeps
+    /// it (`to_tag` is false then: an application does not re-tag a dialog)
+    #[serde(default)]
+    pub in_dialog: bool,
 }
 
 /// A burst of `n` background requests (each with its own branch and Call-ID) injected at `at` ms.
@@ -289,11 +307,13 @@ fn base_strategy(load: BoxedStrategy<Option<LoadSel>>, force_event: bool) -> Box
             src_sel(),
             any::<bool>(),
             load,
+            prop_oneof![3 => Just(0u8), 1 => Just(1u8), 1 => Just(2u8)],
+            prop_oneof![5 => Just(false), 1 => Just(true)],
         ),
     )
         .prop_map(
             move |(invite, mut reliable, csel, provisionals, respond_at, retr, ack, ack_same_branch, rng, mut faults, dims)| {
-                let (via, mut retrans_src, ack_src, to_tag, load) = dims;
+                let (via, mut retrans_src, ack_src, to_tag, load, branch, in_dialog) = dims;
                 faults.sort();
                 faults.dedup();
                 let grid = time_grid(respond_at);
@@ -353,8 +373,10 @@ fn base_strategy(load: BoxedStrategy<Option<LoadSel>>, force_event: bool) -> Box
                     via,
                     retrans_src,
                     ack_src: if ack_at.is_some() { ack_src } else { 0 },
-                    to_tag,
+                    to_tag: to_tag && !in_dialog,
                     load: None,
+                    branch,
+                    in_dialog,
                 };
                 if let Some(sel) = load {
                     case.load = Some(place_load(&case, sel));
@@ -534,6 +556,61 @@ pub fn grid_cases(tier: Tier) -> Vec<Case> {
             }
         }
     }
+    // how the later messages are matched to the transaction (no magic cookie: RFC 2543 fields) x which To-tag they carry
+    for branch in 0u8..3 {
+        for reliable in [false, true] {
+            for &code in &[200u16, 302, 486] {
+                // (the application tags the response, the request was tagged already)
+                for (to_tag, in_dialog) in [(false, false), (true, false), (false, true)] {
+                    if branch == 0 && !in_dialog {
+                        continue; // enumerated above
+                    }
+                    for respond_at in [0u64, 100] {
+                        for ack_off in [Some(100u64), Some(2 * T1 + 1), None] {
+                            for with_copy in [false, true] {
+                                if with_copy && reliable {
+                                    continue;
+                                }
+                                out.push(Case {
+                                    invite: true,
+                                    reliable,
+                                    code,
+                                    provisionals: (respond_at % 3) as u8,
+                                    respond_at,
+                                    retrans: if with_copy { vec![nudge(respond_at, respond_at + 50)] } else { vec![] },
+                                    ack_at: ack_off.map(|o| nudge(respond_at, respond_at + o)),
+                                    ack_same_branch: with_copy,
+                                    to_tag,
+                                    in_dialog,
+                                    branch,
+                                    via: if with_copy { 1 } else { 0 },
+                                    ..Default::default()
+                                });
+                            }
+                        }
+                        if !reliable {
+                            out.push(Case {
+                                invite: false,
+                                reliable,
+                                code,
+                                respond_at,
+                                retrans: vec![
+                                    nudge(respond_at, respond_at + 250),
+                                    nudge(respond_at, respond_at + 7000),
+                                    nudge(respond_at, respond_at + TIMEOUT - 2),
+                                    nudge(respond_at, respond_at + TIMEOUT + 2),
+                                ],
+                                to_tag,
+                                in_dialog,
+                                branch,
+                                ..Default::default()
+                            });
+                        }
+                    }
+                }
+            }
+        }
+    }
     // bursts of other requests while the foreground transaction waits for its ACK / absorbs request copies
     let sizes: &[u16] = if tier == Tier::Thorough { &[1, 10, 100, 250, 500, 1000, 2048] } else { &[1, 10, 100, 250, 500] };
     for &n in sizes {
@@ -589,15 +666,38 @@ pub struct Observed {
 }
 
 const BRANCH: &str = "z9hG4bKc06branch";
+/// a branch as an RFC 2543 client may send it: any token, no magic cookie
+const OLD_BRANCH: &str = "c06.old-branch.1";
+/// To-tag of an in-dialog request
+const DIALOG_TAG: &str = "c06dlgtag";
 const PEER: &str = "192.0.2.9:5060";
 const TO_TAG: &str = "c06uastag";
 
-fn via_value(via: u8, branch: &str) -> String {
+/// `branch`: None = the Via has no branch parameter
+fn via_value(via: u8, branch: Option<&str>) -> String {
+    let b = branch.map(|b| format!(";branch={b}")).unwrap_or_default();
     match via {
-        1 => format!("SIP/2.0/UDP 192.0.2.9:5060;rport;branch={branch}"),
-        2 => format!("SIP/2.0/UDP 192.0.2.9:5060;maddr=192.0.2.77;branch={branch}"),
-        3 => format!("SIP/2.0/UDP 10.9.9.9:5060;branch={branch};rport"),
-        _ => format!("SIP/2.0/UDP 192.0.2.9:5060;branch={branch}"),
+        1 => format!("SIP/2.0/UDP 192.0.2.9:5060;rport{b}"),
+        2 => format!("SIP/2.0/UDP 192.0.2.9:5060;maddr=192.0.2.77{b}"),
+        3 => format!("SIP/2.0/UDP 10.9.9.9:5060{b};rport"),
+        _ => format!("SIP/2.0/UDP 192.0.2.9:5060{b}"),
+    }
+}
+
+/// branch parameter of the foreground request (`ack2xx`: of an ACK for a 2xx that does not re-use it)
+fn branch_of(kind: u8, ack2xx: bool) -> Option<String> {
+    let base = match kind {
+        0 => BRANCH,
+        1 => OLD_BRANCH,
+        _ => return None,
+    };
+    Some(if ack2xx { format!("{base}ack") } else { base.to_string() })
+}
+
+fn to_value(tag: Option<&str>) -> String {
+    match tag {
+        Some(t) => format!("<sip:uas@10.0.0.1>;tag={t}"),
+        None => "<sip:uas@10.0.0.1>".to_string(),
     }
 }
 
@@ -611,14 +711,14 @@ fn source(sel: u8) -> (SocketAddr, bool) {
     }
 }
 
-fn request_bytes(invite: bool, via: u8) -> Vec<u8> {
-    let m = if invite { "INVITE" } else { "OPTIONS" };
+fn request_bytes(case: &Case) -> Vec<u8> {
+    let m = if case.invite { "INVITE" } else { "OPTIONS" };
     request_text(
         m,
         "sip:uas@10.0.0.1",
-        &[via_value(via, BRANCH)],
+        &[via_value(case.via, branch_of(case.branch, false).as_deref())],
         "<sip:peer@192.0.2.9>;tag=peerftag",
-        "<sip:uas@10.0.0.1>",
+        &to_value(if case.in_dialog { Some(DIALOG_TAG) } else { None }),
         CALL_ID,
         11,
         m,
@@ -627,16 +727,24 @@ fn request_bytes(invite: bool, via: u8) -> Vec<u8> {
     )
 }
 
-fn ack_bytes(same_branch: bool, via: u8, to_tag: Option<&str>) -> Vec<u8> {
-    let branch = if same_branch { BRANCH.to_string() } else { format!("{BRANCH}ack") };
-    let to = match to_tag {
-        Some(t) => format!("<sip:uas@10.0.0.1>;tag={t}"),
-        None => "<sip:uas@10.0.0.1>".to_string(),
-    };
+/// the ACK: To-tag as in the final response (`seen_tag`: as read from the wire; when the response never reached the
+/// wire, the tag the test knows it has), everything else as in the INVITE
+fn ack_bytes(case: &Case, seen_tag: Option<Option<String>>) -> Vec<u8> {
+    let same_branch = !(200..300).contains(&case.code) || case.ack_same_branch;
+    let tag = seen_tag.unwrap_or_else(|| {
+        if case.to_tag {
+            Some(TO_TAG.to_string())
+        } else if case.in_dialog {
+            Some(DIALOG_TAG.to_string())
+        } else {
+            None
+        }
+    });
+    let to = to_value(tag.as_deref());
     request_text(
         "ACK",
         "sip:uas@10.0.0.1",
-        &[via_value(via, &branch)],
+        &[via_value(case.via, branch_of(case.branch, !same_branch).as_deref())],
         "<sip:peer@192.0.2.9>;tag=peerftag",
         &to,
         CALL_ID,
@@ -721,7 +829,7 @@ pub fn run(case: &Case) -> Observed {
             // send calls so far: the provisionals and the final response itself
             log.fail_calls(case.faults.iter().map(|i| case.provisionals as usize + 1 + *i as usize));
         }
-        let req_bytes = request_bytes(case.invite, case.via);
+        let req_bytes = request_bytes(&case);
         inject(&endpoint, &tp, peer, &req_bytes);
         settle().await;
 
@@ -816,12 +924,15 @@ pub fn run(case: &Case) -> Observed {
                     inject(&endpoint, if other_tp { &tp2 } else { &tp }, src, &req_bytes);
                 }
                 1 => {
-                    // To-tag as the peer saw it in the final response (create_response adds none by itself)
-                    let ack = ack_bytes(
-                        !(200..300).contains(&case.code) || case.ack_same_branch,
-                        case.via,
-                        if case.to_tag { Some(TO_TAG) } else { None },
-                    );
+                    // the peer echoes the To-tag of the final response it got
+                    let seen_tag = log
+                        .snapshot()
+                        .iter()
+                        .filter(|s| contains(&s.bytes, CALL_ID.as_bytes()))
+                        .filter_map(|s| WireMsg::parse(&s.bytes))
+                        .find(|m| m.status() == Some(case.code))
+                        .map(|m| m.to_tag().map(|t| t.to_string()));
+                    let ack = ack_bytes(&case, seen_tag);
                     let (src, other_tp) = source(case.ack_src);
                     ack_from = Some(src);
                     inject(&endpoint, if other_tp { &tp2 } else { &tp }, src, &ack);
@@ -903,14 +1014,17 @@ pub fn check(case: &Case, out: &mut CaseOut) {
     let copy_elsewhere = (0..case.retrans.len()).any(|i| src_of(case, i) != 0);
     // suffix for a failure whose first discrepancy is at `first_bad` ms: a circumstance is named only when it can
     // have to do with it (the ACK / the request copy concerned came from elsewhere; the burst was there before)
-    let qual = |ack: bool, copy: bool, first_bad: u64| -> String {
+    // (`matched`: the failure is about a later message of the peer, ACK or request copy, i.e. about matching)
+    let qual4 = |ack: bool, copy: bool, matched: bool, first_bad: u64| -> String {
         format!(
-            "{}{}{}",
+            "{}{}{}{}",
             if ack && ack_elsewhere { "+ack-other-addr" } else { "" },
             if copy { "+copy-other-addr" } else { "" },
+            if matched && case.branch != 0 { "+no-cookie-branch" } else { "" },
             if case.load.as_ref().map_or(false, |l| l.n > 0 && l.at <= first_bad) { "+load" } else { "" }
         )
     };
+    let qual = |ack: bool, copy: bool, first_bad: u64| qual4(ack, copy, ack || copy, first_bad);
     let copy_src_at = |t: u64| case.retrans.iter().position(|r| *r == t).map_or(0, |i| src_of(case, i));
     if obs.bg_wire.1 > 0 {
         out.fail(
@@ -1040,7 +1154,8 @@ pub fn check(case: &Case, out: &mut CaseOut) {
         let first_bad = extra.iter().chain(missing.iter()).copied().min().unwrap_or(ra);
         let after_ack = case.invite && !success && case.ack_at == Some(end_of_life) && extra.iter().any(|t| *t >= end_of_life);
         let copy_unanswered = missing.iter().any(|t| copy_src_at(*t) != 0);
-        let q = qual(after_ack, copy_unanswered, first_bad);
+        let about_copy = missing.iter().chain(extra.iter()).any(|t| case.retrans.contains(t));
+        let q = qual4(after_ack, copy_unanswered, after_ack || about_copy, first_bad);
         out.fail(
             format!("c06.final/{kind}-{locus}{q}"),
             format!(
@@ -1160,7 +1275,7 @@ pub fn check(case: &Case, out: &mut CaseOut) {
             .or_else(|| seen_req.get(want_seen.len()).copied())
             .or_else(|| want_seen.get(seen_req.len()).copied())
             .unwrap_or(0);
-        let q_all = qual(false, copy_src_at(first_bad) != 0, first_bad);
+        let q_all = qual4(false, copy_src_at(first_bad) != 0, case.retrans.contains(&first_bad), first_bad);
         out.fail(
             if seen_req.len() > want_seen.len() {
                 format!("c06.layers/{kind}-retransmission-shown-again{q_all}")
@@ -1210,6 +1325,32 @@ pub fn check(case: &Case, out: &mut CaseOut) {
     }
     if case.to_tag {
         out.class("to-tag added by the application");
+    }
+    match case.branch {
+        0 => {}
+        1 => out.class("branch without the magic cookie (RFC 2543 matching)"),
+        _ => out.class("no branch parameter (RFC 2543 matching)"),
+    }
+    if case.in_dialog {
+        out.class("in-dialog request (To-tag in the request)");
+    }
+    // the later messages the transaction has to recognise without a cookie branch
+    let old_ack_failure = case.branch != 0 && !success && case.ack_at.map_or(false, |a| a < ra + TIMEOUT);
+    let old_copy = case.branch != 0 && case.retrans.iter().any(|t| *t > ra && *t < end_of_life);
+    if old_ack_failure {
+        out.class(if case.to_tag {
+            "RFC 2543 matching: ACK for 3xx-6xx with a To-tag the INVITE did not have"
+        } else if case.in_dialog {
+            "RFC 2543 matching: ACK for 3xx-6xx, To-tag as in the INVITE"
+        } else {
+            "RFC 2543 matching: ACK for 3xx-6xx, no To-tag"
+        });
+    }
+    if case.branch != 0 && success && case.ack_at.is_some() {
+        out.class("RFC 2543 matching: ACK for 2xx");
+    }
+    if old_copy {
+        out.class("RFC 2543 matching: request copy after the final response");
     }
     if ack_elsewhere {
         out.class("ack does not come from the address the response went to");
@@ -1266,7 +1407,7 @@ pub fn check(case: &Case, out: &mut CaseOut) {
         });
     }
     let elsewhere_matters = (ack_elsewhere && !success) || copy_elsewhere;
-    if !case.retrans.is_empty() || timer_retrans || ack_near_edge || elsewhere_matters || pending_max > 0 {
+    if !case.retrans.is_empty() || timer_retrans || ack_near_edge || elsewhere_matters || pending_max > 0 || old_ack_failure {
         out.nontrivial(case);
     }
     let _ = obs.end_count;
@@ -1276,16 +1417,17 @@ pub fn property() -> Property {
     Property {
         fuzz: vec![],
         id: "C06",
-        rule: "cases = (INVITE|non-INVITE) x (reliable|unreliable) x final status x 0..2 provisionals x answer delay x arrival instants of request retransmissions and of the ACK (grid = +-1 ms around every timer-G instant, the answer instant and 64*T1; random otherwise) x transient send faults on chosen re-sends of a non-INVITE final response x top-Via shape (plain, rport, maddr, private sent-by + rport) x source of every request copy and of the ACK (same socket address, other port, other host, other transport object) x To-tag added by the application x a burst of 1..600 (thorough grid: 2048) other requests on the same endpoint (nobody takes them / rejected inline by a layer / worked on inline for 20 s / mixture; their failures ACKed after 200 ms or never) placed at, just before or well before a foreground arrival, under a paused clock. Non-trivial = at least one request retransmission, or at least one timer retransmission expected, or an ACK within 1 ms of a G/H edge, or an ACK for a 3xx-6xx / a request copy that does not come from the address the response went to, or a foreground arrival while background requests are inside the receive path; distinct by hash of the case.",
+        rule: "cases = (INVITE|non-INVITE) x (reliable|unreliable) x final status x 0..2 provisionals x answer delay x arrival instants of request retransmissions and of the ACK (grid = +-1 ms around every timer-G instant, the answer instant and 64*T1; random otherwise) x transient send faults on chosen re-sends of a non-INVITE final response x top-Via shape (plain, rport, maddr, private sent-by + rport) x source of every request copy and of the ACK (same socket address, other port, other host, other transport object) x To-tag added by the application (the ACK echoes the To-tag of the response on the wire) x in-dialog request (To-tag in the request) x transaction identification (cookie branch | branch without cookie | no branch: RFC 2543 matching) x a burst of 1..600 (thorough grid: 2048) other requests on the same endpoint (nobody takes them / rejected inline by a layer / worked on inline for 20 s / mixture; their failures ACKed after 200 ms or never) placed at, just before or well before a foreground arrival, under a paused clock. Non-trivial = at least one request retransmission, or at least one timer retransmission expected, or an ACK within 1 ms of a G/H edge, or an ACK for a 3xx-6xx / a request copy that does not come from the address the response went to, or an ACK for a 3xx-6xx that has to be matched without a cookie branch, or a foreground arrival while background requests are inside the receive path; distinct by hash of the case.",
         assumptions: vec![
             "timers run on tokio's paused clock (hook H2); mock transport sends complete instantly; transient send faults are injected only into re-sends of a non-INVITE final response and only without background load",
             "arrivals exactly on a timer instant are excluded (tie is a don't-care)",
             "request retransmissions that arrive before the final response may produce extra copies at the answer instant (tolerated: statement silent)",
             "no request retransmissions are generated after the final response on reliable transports",
+            "without the magic cookie a message belongs to the transaction by the second half of RFC 3261 17.2.3; the generated peer keeps Request-URI, Call-ID, From, CSeq number and the whole top Via equal in the request, its copies and the ACK, and gives the ACK the To header of the final response, so it matches under every reading of that rule; messages that differ in one of those fields are not generated",
             "a message belongs to the transaction by RFC 3261 17.2.3 (branch, sent-by, method): its source address / the transport object it arrives over is free; the destination of the response is not asserted (C09), only that re-sends go where the first transmission went",
-            "background requests have their own branch and Call-ID; nothing is asserted about them except that what they put on the wire are responses; a signature suffix (+ack-other-addr, +copy-other-addr, +load) names the circumstances of the failing case, the shrunk replay keeps only those that are needed",
+            "background requests have their own branch and Call-ID; nothing is asserted about them except that what they put on the wire are responses; a signature suffix (+ack-other-addr, +copy-other-addr, +no-cookie-branch, +load) names the circumstances of the failing case, the shrunk replay keeps only those that are needed",
         ],
-        explanation: "grid sub-check enumerates single (thorough: pairs of) retransmission instants x ACK instants over the edge grid, Via shape x source of ACK / request copies x reliability, and bursts of 1..500 (thorough 2048) x kind x ACKed-or-not against three foreground histories; random sub-check samples longer patterns with all dimensions mixed (small bursts in 4% of the cases); load sub-check samples the same space with a burst in every case (sizes 1-9, 10-99, 100-600) and at least one later foreground arrival",
+        explanation: "grid sub-check enumerates single (thorough: pairs of) retransmission instants x ACK instants over the edge grid, Via shape x source of ACK / request copies x reliability, transaction identification (cookie / no cookie / no branch) x who put the To-tag (nobody / application / the dialog) x status x ACK instant (or none) x request copy, and bursts of 1..500 (thorough 2048) x kind x ACKed-or-not against three foreground histories; random sub-check samples longer patterns with all dimensions mixed (small bursts in 4% of the cases); load sub-check samples the same space with a burst in every case (sizes 1-9, 10-99, 100-600) and at least one later foreground arrival",
         subs: vec![
             enum_sub("grid", grid_cases, check),
             prop_sub("random", strategy, 6000, 60000, check),
